@@ -23,3 +23,12 @@ Proof.
   destruct (fm_last_dts m); [destruct (d <? n)%N|]; inversion H; reflexivity.
 Qed.
 Print Assumptions C05_fragmented_rejected_unchanged.
+
+From Muxide Require Export Proofs.HistoryProofs.
+(* fragmented muxer, whole histories: removing the rejected writes changes neither the final
+   muxer nor any other result *)
+Theorem C05_fragmented_rejected_writes_leave_no_trace : forall ops m,
+  fst (frun m (f_kept m ops)) = fst (frun m ops) /\
+  snd (frun m (f_kept m ops)) = filter (fun r => match r with FrErrNonMonotonic _ _ => false | _ => true end) (snd (frun m ops)).
+Proof. exact fragmented_rejected_writes_leave_no_trace. Qed.
+Print Assumptions C05_fragmented_rejected_writes_leave_no_trace.
